@@ -1,5 +1,6 @@
 """C39 — Stream saving writes each completed flow once and keeps open flows at shutdown
 (mitmproxy/addons/save.py: Save; mitmproxy/io/io.py: FilteredFlowWriter)."""
+import logging
 import os
 import shutil
 
@@ -169,6 +170,16 @@ def setup_impl():
                         f"files-{os.getpid()}")
 
 
+class _ErrLog(logging.Handler):
+    """counts ERROR records (the addon manager logs exceptions that escape an addon hook)"""
+    def __init__(self):
+        super().__init__(level=logging.ERROR)
+        self.n = 0
+
+    def emit(self, record):
+        self.n += 1
+
+
 def make_flow(fi):
     k = fi["k"]
     if k == "http":
@@ -205,13 +216,18 @@ def run_impl(case):
     paths = [os.path.join(WORK, f"p{k}") for k in range(3)]
     sa = save.Save()
     steps = []
+    errlog = _ErrLog()
+    logging.getLogger().addHandler(errlog)
     try:
         with taddons.context(sa) as tctx:
+            # the master's own log handler forwards records to an event loop that never runs here
+            tctx.master._legacy_log_events.uninstall()
             flows = [make_flow(fi) for fi in case["flows"]]
             idx = {f.id: i for i, f in enumerate(flows)}
             raw_prev, prev = [None, None], [None, None]
             for ev in case["evs"]:
                 err = False
+                errlog.n = 0
                 stopper = ev[0] != "hook"
                 if ev[0] == "hook":
                     f = flows[ev[2]]
@@ -245,11 +261,12 @@ def run_impl(case):
                         seg = raw[k][len(old):]
                         cur[k] = prev[k] + (sorted(seg) if stopper else seg)
                 raw_prev, prev = raw, cur
-                steps.append({"err": err, "open": sa.stream is not None,
+                steps.append({"err": err, "alog": errlog.n > 0, "open": sa.stream is not None,
                               "active": sorted(idx[f.id] for f in sa.active_flows),
                               "f0": cur[0], "f1": cur[1], "pm": pm,
                               "opt": bool(tctx.options.save_stream_file)})
     finally:
+        logging.getLogger().removeHandler(errlog)
         if sa.stream is not None:
             try:
                 sa.stream.fo.close()
@@ -296,7 +313,7 @@ def coq_case(case, obs):
     lst = lambda l: clist((cN(x) for x in l), "N")
     steps = []
     for ev, o in zip(case["evs"], obs["steps"]):
-        ob = (f"Ob {cbool(o['err'])} {cbool(o['open'])} {lst(o['active'])} "
+        ob = (f"Ob {cbool(o['err'])} {cbool(o['alog'])} {cbool(o['open'])} {lst(o['active'])} "
               f"{copt(o['f0'], lst, '(list N)')} {copt(o['f1'], lst, '(list N)')}")
         steps.append(f"({cevent(ev)}, {ob})")
     return f"Case {infos} {clist(steps, '(event * obs)')}"
